@@ -1309,9 +1309,6 @@ func (e *SpecEnv) preReturned(name string) (Val, bool) {
 	if n != 1 || !isCall {
 		return Val{}, false
 	}
-	if _, isTup := call.Type().(*types.Tuple); isTup {
-		return Val{}, false
-	}
 	if c.preRet == nil {
 		c.preRet = map[ssa.Instruction]Val{}
 	}
